@@ -16,8 +16,15 @@
                                 and discarded: mining the selected txs alone gives the same block.
   * `votesByBalance_swap/perm`— the end-of-block vote pass is independent of Go's map iteration order.
   * `validate_deterministic`  — stated for completeness: `validate` is a function of (state, txs).
+  * `mineBlock_eq_validateBlock` — whole blocks, REWARD BLOCKS included: miner path (ApplyTxs, chargeForGas, Finalize)
+                                and validator path (Process, chargeForGas, the same Finalize = term reward, deposit
+                                refunds, vote pass) end in the same state with the same gas.
+  * `finalize_perm`, `refund_order_irrelevant` — Finalize does not depend on the two Go map iteration orders it
+                                walks: the vote pass over the changed accounts, and the refund list
+                                (LoadRefundCandidates ranges over the candidate cache's map).
 -/
 import LemoModel.Ledger
+import LemoProofs.Lemmas.LedgerReward
 namespace LemoProofs.C01
 open LemoModel.Ledger
 
@@ -379,5 +386,40 @@ theorem votesByBalance_perm (c : Ctx) (start : Nat → Int) (l1 l2 : List Nat) (
   | cons x _ ih => simp only [List.foldl_cons]; exact ih _
   | swap x y l => simp only [List.foldl_cons]; rw [voteStep_comm]
   | trans _ _ ih1 ih2 => rw [ih1, ih2]
+
+/-! ### whole blocks, reward blocks included -/
+
+/-- **finalize_perm**: `Finalize` (term reward, refunds, vote pass — in either order of the model's `votesLast`
+    switch) gives the same state for every iteration order of the vote pass. -/
+theorem finalize_perm (c : Ctx) (start : Nat → Int) (l1 l2 : List Nat) (h : l1.Perm l2) (s : St) :
+    finalize c start s l1 = finalize c start s l2 := by
+  unfold finalize
+  split
+  · exact votesByBalance_perm c start l1 l2 h _
+  · rw [votesByBalance_perm c start l1 l2 h s]
+
+/-- **refund_order_irrelevant**: the refund list of a reward block comes out of a Go map
+    (`CandidateCache.GetCandidates` ranges over `cache.Candidates`): every order of the same list gives the same state. -/
+theorem refund_order_irrelevant (c : Ctx) (r2 : List Nat) (h : c.rf.refunds.Perm r2) (s : St) :
+    rewardSteps c s = rewardSteps { c with rf := { c.rf with refunds := r2 } } s := by
+  have e1 : isRewardBlock { c with rf := { c.rf with refunds := r2 } } = isRewardBlock c := rfl
+  have e2 : issueTermReward { c with rf := { c.rf with refunds := r2 } } s = issueTermReward c s := rfl
+  unfold rewardSteps
+  rw [e1, e2]
+  split
+  · rw [← LemoProofs.LedgerReward.refundAll_ctx c { c with rf := { c.rf with refunds := r2 } } rfl]
+    exact LemoProofs.LedgerReward.refundAll_perm c _ _ h _
+  · rfl
+
+/-- **mineBlock_eq_validateBlock**: for ALL parent states, candidate lists, heights (reward blocks included) and
+    reward facts: the validator path over the miner's selection — with any gas pool at least as large — accepts the
+    block and ends in exactly the miner's state with the miner's gas total. Miner and validator run the same
+    `Finalize` on the same post-transaction state (`mine_eq_validate`). -/
+theorem mineBlock_eq_validateBlock (c : Ctx) (txs : List Tx) (s : St) (gp k : Nat) (addrs : List Nat) :
+    validateBlock c s (gp + k) (mineSel c s gp txs) addrs =
+      some ((mineBlock c s gp txs addrs).1, (mineBlock c s gp txs addrs).2.2.2) := by
+  obtain ⟨k', hk'⟩ := mine_eq_validate c txs s gp k
+  unfold validateBlock mineBlock
+  simp only [hk']
 
 end LemoProofs.C01
